@@ -58,6 +58,35 @@ def run(tier):
             if v[0] == "enum" and len(v[2]) >= 2 and v[2][-1][0] in ("sstr", "str"):
                 extra.append(("enum", v[1], tuple(v[2][:-1]) + (symstr.lit(""),)))
         vals = list(vals) + [e for e in extra if e not in vals]
+        # a free-text payload may contain, after other text, the literal marker another variant is recognised by
+        # (e.g. "1.2, commit:abc" is not a commit reference): add such payloads
+        marks = set()
+        for v in vals:
+            rs, _ = roundtrip.render_value(F, mod, v)
+            for ctl, r in rs:
+                r = normalize(r) if ctl == OK else None
+                if r and r[0] == "sstr":
+                    for pc in r[1]:
+                        if pc[0] == "lit" and len(pc[1].strip()) >= 3 and not pc[1].strip().isspace():
+                            marks.add(pc[1].strip())
+        # records with a size / count field: one value beyond 32 bits
+        if adt["kind"] == "Struct":
+            for v in list(vals):
+                if v[0] == "struct":
+                    flds = list(v[2])
+                    for i, (fn_, fv) in enumerate(flds):
+                        ps_ = symstr.pieces_of(fv) if isinstance(fv, tuple) and fv and fv[0] in ("sstr", "str") else None
+                        if ps_ and len(ps_) == 1 and ps_[0][0] == "atom" and ps_[0][2] == "int":
+                            big = list(flds)
+                            big[i] = (fn_, ("int", 6012954214))
+                            vals.append(("struct", v[1], tuple(big)))
+                    break
+        extra2 = []
+        for v in vals:
+            if v[0] == "enum" and len(v[2]) == 1 and v[2][0][0] in ("sstr", "str") and len(symstr.pieces_of(v[2][0]) or ()) == 1 and symstr.pieces_of(v[2][0])[0][0] == "atom":
+                for mk_ in sorted(marks)[:3]:
+                    extra2.append(("enum", v[1], (symstr.mk([("atom", "pre", "word"), ("lit", ", " + mk_), ("atom", "post", "word")]),)))
+        vals = vals + [e for e in extra2 if e not in vals]
         pure_enum = adt["kind"] == "Enum" and all(not v["fields"] for v in adt["variants"])
         for v in vals:
             name = "%s :: %s" % (t, show_value(v))
